@@ -163,6 +163,17 @@ def replay_indent_case(case, mods):
 
     cmp('to_list', case['out'], _guard(lambda: py2lines(make_indentizer(text_gen, cfg).to_list(list(ls)))))
     cmp('to_str', case['str'], _guard(lambda: py2s(make_indentizer(text_gen, cfg).to_str(list(ls)))))
+    # the predefined indenters: all_dashes_t / initial_dash_t are this configuration made by a factory function
+    if cfg['glyph'] == [45] and cfg['n'] == 2 and cfg['mode'] in ('all', 'first'):
+        factory = text_gen.all_dashes_t if cfg['mode'] == 'all' else text_gen.initial_dash_t
+        name = factory.__name__
+        if cfg['tab']:
+            cmp(f'{name}(Indentor.TAB).to_list', case['out'], _guard(lambda: py2lines(factory(text_gen.Indentor.TAB).to_list(list(ls)))))
+        else:
+            cmp(f'{name}().to_list', case['out'], _guard(lambda: py2lines(factory().to_list(list(ls)))))
+            cmp(f'{name}(Indentor.SPACES).to_list', case['out'],
+                _guard(lambda: py2lines(factory(text_gen.Indentor.SPACES).to_list(list(ls)))))
+            cmp(f'{name}(None).to_list', case['out'], _guard(lambda: py2lines(factory(None).to_list(list(ls)))))
 
     def block_indent():
         blk = text_gen.TextBlock(header='H e a d')
